@@ -116,6 +116,10 @@ func syncVerdict(err error) (string, string) {
 			return "other", "none"
 		}
 		return "accepted", v
+	case "notready":
+		// getRequestState turns a Dropped result into ErrShardNotReady; every replica is past its
+		// start-up when the call is made (healthy()), so this is an accepted request that was dropped
+		return "accepted", "dropped"
 	default:
 		return v, "none"
 	}
@@ -443,9 +447,14 @@ func (c *cluster) cfgOp(snapEntries uint64, nonVoting bool) string {
 		rc := config.Config{ReplicaID: 77, ShardID: probeShardID, ElectionRTT: 10, HeartbeatRTT: 1,
 			SnapshotEntries: snapEntries, CompactionOverhead: 2, IsWitness: true, IsNonVoting: nonVoting}
 		var err error
-		p := vh.Catch(func() {
-			err = nh.StartReplica(nil, true,
-				func(uint64, uint64) sm.IStateMachine { return &trapSM{m: c.mon} }, rc)
+		var p string
+		// a probe replica that was just stopped is unloaded asynchronously: ErrShardAlreadyExist until then
+		waitFor(30*time.Second, func() bool {
+			p = vh.Catch(func() {
+				err = nh.StartReplica(nil, true,
+					func(uint64, uint64) sm.IStateMachine { return &trapSM{m: c.mon} }, rc)
+			})
+			return p != "" || !errors.Is(err, dragonboat.ErrShardAlreadyExist)
 		})
 		switch {
 		case p != "":
